@@ -461,6 +461,34 @@ PROPS["C06"] = dict(
     level_note="Trusted: clang sanitizers, valgrind 3.19 (memcheck, callgrind), libFuzzer.",
 )
 
+PROPS["C17"] = dict(
+    level="exploration",
+    default_binary="c17",
+    binaries={"c17": dict(src=["props/c17.cpp"], variants=["dflt", "o000", "o001", "o010", "o011", "o100", "o101", "o110", "o111"])},
+    stages=[
+        stage("addresses"),
+        stage("domains"),
+        stage("locals"),
+        stage("random", kind="rc", quick=2500, thorough=40000, max_size=100),
+    ],
+    rule="Configurations: the 8 combinations of RFC6531_FOLLOW_RFC5322 / RFC6531_FOLLOW_RFC20 / LABELS_ALLOW_UNDERSCORE given on make's command line, "
+         "plus the build with no variable given, all linked into one process. Inputs: local parts = all strings <= 5 (quick) / <= 6 (thorough) "
+         "over the C02 alphabet and over {a . \" \\ SP # ~ { U+0416 0x01}, <= 6 / <= 7 over {a \" SP U+0416 U+20AC 0xFF \\ LF}, every byte in 5 "
+         "positions; domains = all strings <= 7 / <= 8 over {a 1 - . _ !}, 20 underscore shapes, 62-64 character labels with '_'; addresses = "
+         "repository corpus, 16 x 11 hand-picked local/domain forms, grammar-based random local parts / domains / addresses with RFC 20 characters "
+         "and underscores injected; 4 modes x tld_check {0,1}. Non-trivial = the input contains an RFC 20 character, a '_' or a quoted "
+         "whitespace/control, i.e. one an option can act on; distinct by (kind, input) hash.",
+    assumptions=["RFC5322 option: for a well-formed-UTF-8, non-ASCII local part containing whitespace or a control character inside quotes the option "
+                 "build's decision is not judged (the statement pins pure-ASCII local parts; the repository's own option-build expectations accept "
+                 "such inputs) - see DESIGN.md C17",
+                 "UNDERSCORE differential ('_' -> 'q' in the default build) is applied only without xn-- labels and, with TLD checking, when the last label has no '_'"],
+    min_evaluations=dict(quick=10_000_000, thorough=100_000_000),
+    technique="configuration differential: nine builds in one process against a reference recogniser parameterised by the options, stated per-option relations, and per-build composition of the public validators; bounded-exhaustive + rapidcheck generation",
+    level_text="Exploration by differential between build configurations with an explicit option-aware model; short strings over the alphabets the "
+               "options act on are enumerated completely in all builds.",
+    level_note="Trusted: oracle/ref.hpp with LocalOpts / underscore flag, the Makefile variable mechanism, sanitizers, shim.",
+)
+
 
 def stages_for(pid, tier):
     out = []
